@@ -54,9 +54,3 @@ def register(K):
                ensures=["result.pickled is pickled",
                         "forall('j', len(result.results), 'doc_rank(result.results[j].severity) >= 1')"])
     K.contract("analysis.is_likely_safe", params="filepath: val", returns="bool", may_raise=["OSError", "Exception"], ensures=[])
-
-    @K.spec("fresh_since_entry")
-    def fresh_since_entry(eng, st, x):
-        """the object was allocated by this call (so nothing that existed before can alias it)"""
-        base = eng.old_state.alloc_ptr() if eng.old_state is not None else st.alloc_ptr()
-        return vbool(eng.as_ref(x, st) >= base)
